@@ -272,6 +272,11 @@ func (o *oidcHandler) redirectToIDP(ctx context.Context, log telemetry.Logger,
 		"code_challenge_method": []string{"S256"},
 	}
 	redirectURL := o.config.GetAuthorizationUri() + "?" + query.Encode()
+	if strings.Contains(o.config.GetAuthorizationUri(), "?") {
+		// The authorization endpoint has a query component of its own (RFC 6749 section 3.1 requires it to be
+		// retained): extend it instead of starting a second one.
+		redirectURL = o.config.GetAuthorizationUri() + "&" + query.Encode()
+	}
 
 	// Generate denied response with redirect headers
 	deny := newDenyResponse()
